@@ -151,10 +151,18 @@ class Machine:
                     self.CF, self.ZF, self.OF = cy, ("zero", lo), (0 if s.hi < (1 << 63) else "unknown")
             elif mn in ("sub", "subq", "sbb", "sbbq", "cmp", "cmpq"):
                 cin = self.CF if mn.startswith("sbb") else 0
-                a, b, c = self.word(self.rd(ops[1]), text), self.word(self.rd(ops[0]), text), self.word(self.carry(cin), text)
+                if ops[0] == ops[1] and not mn.startswith("cmp"):
+                    a, b, c = wv(0), wv(0), self.word(self.carry(cin), text)        # x - x: the register's value cancels
+                else:
+                    a, b, c = self.word(self.rd(ops[1]), text), self.word(self.rd(ops[0]), text), self.word(self.carry(cin), text)
                 d, bw = dom.borrow(a, WVal(b.p + c.p, b.hi + c.hi))
                 if not mn.startswith("cmp"):
                     self.wr(ops[1], d)
+                self.CF, self.ZF, self.OF = bw, ("zero", d), "unknown"
+            elif mn in ("neg", "negq"):
+                a = self.word(self.rd(ops[0]), text)
+                d, bw = dom.borrow(wv(0), a)
+                self.wr(ops[0], d)
                 self.CF, self.ZF, self.OF = bw, ("zero", d), "unknown"
             elif mn in ("xor", "xorq", "xorl") and ops[0] == ops[1]:
                 self.wr(ops[1], 0)
